@@ -540,7 +540,7 @@ const FEATURES: [(&str, CellMap); 19] = [
     ("high_fg", |c, _| if let Col::D(i) = c.1 { Cell(c.0, Col::D(i & 7), c.2, c.3) } else { c }),
     ("fg_color", |c, _| if matches!(c.1, Col::D(i) if i < 7) { Cell(c.0, Col::D(7), c.2, c.3) } else { c }),
     ("ext_bg", |c, o| if is_ext_bg(c.2, o) { Cell(c.0, c.1, Col::D(0), c.3) } else { c }),
-    ("high_bg", |c, _| if let Col::D(i) = c.2 { Cell(c.0, c.1, Col::D(i & 7), c.3) } else { c }),
+    ("high_bg", |c, o| if let (Col::D(i), 2) = (c.2, o.ice) { Cell(c.0, c.1, Col::D(i & 7), c.3) } else { c }),
     ("bg_color", |c, _| if matches!(c.2, Col::D(i) if i > 0 && i < 8) { Cell(c.0, c.1, Col::D(0), c.3) } else { c }),
     ("ctrl_char", |c, _| if c.0 < 0x20 && c.0 != 0 || c.0 == 0x7F { Cell(b'A', c.1, c.2, c.3) } else { c }),
     ("nul_or_ff_blank", |c, _| if c.0 == 0 || c.0 == 0xFF { Cell(b' ', c.1, c.2, c.3) } else { c }),
@@ -555,227 +555,410 @@ fn has_bom(n: &Norm) -> bool {
     n.w >= 3 && n.grid[0][0].0 == 0xEF && n.grid[0][1].0 == 0xBB && n.grid[0][2].0 == 0xBF
 }
 
-/// Greedy attribution. The failing normal form is simplified step by step (clause upgrade, row window, neutralising
-/// runs, width 80, then feature removals and options towards Opts::BASE); a step is kept when the same clause is still
-/// violated at the same cell, otherwise the feature / option it would have removed is named in the key.
-fn attribute(n0: &Norm, first: &Mis) -> (String, String) {
-    let mut n = n0.clone();
-    let mut p = Probe { clause: first.clause, x: first.x, y: first.y };
-    let mut last_msg = first.msg.clone();
-    let positional = matches!(p.clause, "char" | "blink" | "bg" | "fg");
-    let mut feats: Vec<String> = Vec::new();
+/// one simplification step of the attribution
+#[derive(Clone, Copy, Debug)]
+enum Step {
+    /// smallest window of rows around the failing row
+    Window,
+    /// two rows joined into one (right half of the upper, left half of the lower)
+    Join,
+    /// every run of equal cells replaced by 'A' on default colours, else by default blanks
+    Runs,
+    /// width 80 instead of the SAUCE width
+    Width,
+    /// first cell of the UTF-8 byte order mark replaced
+    Bom,
+    /// rows that start with a neutral cell and end in a blank are rotated left by one cell (moves runs off the right margin)
+    Unmargin,
+    /// last cell of every row gets a non-blank glyph (same colours)
+    Trailing,
+    Feature(usize),
+    Opt(usize),
+}
 
-    macro_rules! keep_if_fails {
-        ($cand:expr, $probe:expr) => {{
-            let cand: Norm = $cand;
-            let pr: Probe = $probe;
-            if let Some(m) = still(&cand, &pr) {
-                n = cand;
-                p = pr;
-                last_msg = m;
-                true
-            } else {
-                false
-            }
-        }};
+struct Attr {
+    n: Norm,
+    p: Probe,
+    msg: String,
+    positional: bool,
+    protect_bom: bool,
+}
+
+impl Attr {
+    fn keep_if_fails(&mut self, cand: Norm, pr: Probe) -> bool {
+        if let Some(m) = still(&cand, &pr) {
+            self.n = cand;
+            self.p = pr;
+            self.msg = m;
+            true
+        } else {
+            false
+        }
     }
+
+    /// ddmin-style: neutralise as many of `runs` as possible ('A' on default colours; single runs also as default blanks)
+    fn neutralise(&mut self, runs: &[(usize, usize, usize)]) {
+        if runs.is_empty() {
+            return;
+        }
+        let mut c = self.n.clone();
+        for (y, x, e) in runs {
+            for k in *x..*e {
+                c.grid[*y][k] = FILL_A;
+            }
+        }
+        let pr = self.p;
+        if self.keep_if_fails(c, pr) {
+            return;
+        }
+        if runs.len() == 1 {
+            let (y, x, e) = runs[0];
+            if self.n.grid[y][x] != BLANK {
+                let mut c = self.n.clone();
+                for k in x..e {
+                    c.grid[y][k] = BLANK;
+                }
+                self.keep_if_fails(c, pr);
+            }
+            return;
+        }
+        let (l, r) = runs.split_at(runs.len() / 2);
+        self.neutralise(l);
+        self.neutralise(r);
+    }
+
+    /// returns (something was simplified, the step could not be applied although it would change the case)
+    fn apply(&mut self, s: Step) -> (bool, bool) {
+        let (n, p) = (self.n.clone(), self.p);
+        match s {
+            Step::Window => {
+                let h = n.grid.len();
+                if !self.positional || h < 2 {
+                    return (false, false);
+                }
+                let y = p.y.min(h - 1);
+                let lo = y.saturating_sub(1);
+                let hi = (y + 1).min(h - 1);
+                for (a, b) in [(y, y), (y, hi), (lo, y), (lo, hi), (0, hi), (lo, h - 1)] {
+                    if b - a + 1 >= h {
+                        continue;
+                    }
+                    let mut c = n.clone();
+                    c.grid = n.grid[a..=b].to_vec();
+                    if self.keep_if_fails(c, Probe { y: p.y - a, ..p }) {
+                        return (true, false);
+                    }
+                }
+                (false, true)
+            }
+            Step::Join => {
+                if !self.positional || n.grid.len() != 2 || n.w < 2 {
+                    return (false, false);
+                }
+                let k = n.w / 2;
+                let nx = if p.y == 0 && p.x >= n.w - k {
+                    p.x - (n.w - k)
+                } else if p.y == 1 && p.x < n.w - k {
+                    p.x + k
+                } else {
+                    return (false, false);
+                };
+                let mut c = n.clone();
+                let mut row: Vec<Cell> = n.grid[0][n.w - k..].to_vec();
+                row.extend_from_slice(&n.grid[1][..n.w - k]);
+                c.grid = vec![row];
+                (self.keep_if_fails(c, Probe { x: nx, y: 0, ..p }), false)
+            }
+            Step::Runs => {
+                if !self.positional {
+                    return (false, false);
+                }
+                // all maximal runs of equal cells that are not neutral yet
+                let mut runs: Vec<(usize, usize, usize)> = Vec::new();
+                for y in 0..n.grid.len() {
+                    let mut x = 0;
+                    while x < n.w {
+                        let cell = n.grid[y][x];
+                        let mut e = x + 1;
+                        while e < n.w && n.grid[y][e] == cell {
+                            e += 1;
+                        }
+                        let is_bom = has_bom(&n) && y == 0 && x < 3;
+                        if cell != FILL_A && !is_bom {
+                            runs.push((y, x, e));
+                        }
+                        x = e;
+                    }
+                }
+                let before = self.n.grid.clone();
+                self.neutralise(&runs);
+                (self.n.grid != before, false)
+            }
+            Step::Width => {
+                if n.w == 80 {
+                    return (false, false);
+                }
+                let w = n.w;
+                if !self.positional {
+                    return (false, true);
+                }
+                {
+                    // re-flow the cell stream at width 80 (keeps everything that does not depend on the margins)
+                    let mut stream: Vec<Cell> = n.grid.iter().flatten().copied().collect();
+                    let idx = p.y * w + p.x;
+                    while stream.len() % 80 != 0 {
+                        stream.push(FILL_A);
+                    }
+                    if stream.len() / 80 <= 60 {
+                        let mut c = n.clone();
+                        c.w = 80;
+                        c.grid = stream.chunks(80).map(|r| r.to_vec()).collect();
+                        if self.keep_if_fails(c, Probe { x: idx % 80, y: idx / 80, ..p }) {
+                            return (true, false);
+                        }
+                    }
+                }
+                // cut columns out of (wide) or stretch a column of (narrow) every row, keeping both margins
+                let d = if w > 80 { w - 80 } else { 80 - w };
+                let cands: Vec<usize> = if w > 80 { vec![(w - d) / 2, 1, w - d - 1, 0] } else { vec![w / 2, w - 1, 0, 1.min(w - 1)] };
+                for at in cands {
+                    let nx = if w > 80 {
+                        if p.x < at {
+                            p.x
+                        } else if p.x >= at + d {
+                            p.x - d
+                        } else {
+                            continue;
+                        }
+                    } else if p.x <= at {
+                        p.x
+                    } else {
+                        p.x + d
+                    };
+                    let mut c = n.clone();
+                    c.w = 80;
+                    for row in c.grid.iter_mut() {
+                        if w > 80 {
+                            row.drain(at..at + d);
+                        } else {
+                            let cell = row[at];
+                            for _ in 0..d {
+                                row.insert(at, cell);
+                            }
+                        }
+                    }
+                    if self.keep_if_fails(c, Probe { x: nx, ..p }) {
+                        return (true, false);
+                    }
+                }
+                (false, true)
+            }
+            Step::Bom => {
+                if !has_bom(&n) {
+                    self.protect_bom = false;
+                    return (false, false);
+                }
+                let mut c = n.clone();
+                c.grid[0][0].0 = b'A';
+                let kept = self.keep_if_fails(c, p);
+                self.protect_bom = !kept;
+                (kept, !kept)
+            }
+            Step::Unmargin => {
+                if !self.positional || n.w < 2 {
+                    return (false, false);
+                }
+                let mut c = n.clone();
+                let mut pr = p;
+                let mut changed = false;
+                for (y, row) in c.grid.iter_mut().enumerate() {
+                    if row[0] == FILL_A && is_blank(row[n.w - 1].0 as u32) && !(y == p.y && p.x == 0) {
+                        row.remove(0);
+                        row.push(FILL_A);
+                        if y == p.y {
+                            pr.x -= 1;
+                        }
+                        changed = true;
+                    }
+                }
+                if !changed {
+                    return (false, false);
+                }
+                (self.keep_if_fails(c, pr), false)
+            }
+            Step::Trailing => {
+                let mut c = n.clone();
+                let mut changed = false;
+                for row in c.grid.iter_mut() {
+                    if let Some(l) = row.last_mut() {
+                        if is_blank(l.0 as u32) {
+                            l.0 = b'A';
+                            changed = true;
+                        }
+                    }
+                }
+                if !changed {
+                    return (false, false);
+                }
+                let kept = self.keep_if_fails(c, p);
+                (kept, !kept)
+            }
+            Step::Feature(i) => {
+                let f = FEATURES[i].1;
+                let mut c = n.clone();
+                let mut changed = false;
+                let o = c.opts;
+                for (y, row) in c.grid.iter_mut().enumerate() {
+                    for (x, cell) in row.iter_mut().enumerate() {
+                        if self.protect_bom && y == 0 && x < 3 {
+                            continue;
+                        }
+                        let m = f(*cell, &o);
+                        if m != *cell {
+                            *cell = m;
+                            changed = true;
+                        }
+                    }
+                }
+                if !changed {
+                    return (false, false);
+                }
+                relegalize(&mut c);
+                let kept = self.keep_if_fails(c, p);
+                (kept, !kept)
+            }
+            Step::Opt(i) => {
+                let v = n.opts.get(i);
+                let b = Opts::BASE.get(i);
+                if v == b {
+                    return (false, false);
+                }
+                if i == 1 && n.w != 80 {
+                    return (false, false); // forced by the width; named through narrow / wide
+                }
+                let mut c = n.clone();
+                c.opts.set(i, b);
+                if i == 9 && c.grid.iter().flatten().any(|cell| !encodable(cell.0, b)) {
+                    return (false, true); // the needed characters exist only under this handling
+                }
+                relegalize(&mut c);
+                if c.grid != n.grid {
+                    return (false, true); // the simpler mode cannot hold these cells
+                }
+                let kept = self.keep_if_fails(c, p);
+                (kept, !kept)
+            }
+        }
+    }
+}
+
+/// Greedy attribution to a fixpoint. The failing normal form is simplified step by step (clause upgrade once, then row
+/// window, joining rows, neutralising runs, width 80, feature removals, options towards Opts::BASE, repeated until no
+/// step applies); a step is kept when the same clause is still violated at the same cell. The key names the clause and
+/// the options / features whose removal from the final reduced case makes it pass.
+fn attribute(n0: &Norm, first: &Mis) -> (String, String) {
+    let mut a = Attr {
+        n: n0.clone(),
+        p: Probe { clause: first.clause, x: first.x, y: first.y },
+        msg: first.msg.clone(),
+        positional: matches!(first.clause, "char" | "blink" | "bg" | "fg"),
+        protect_bom: false,
+    };
 
     // a colour/blink mismatch caused by displaced output becomes a character mismatch once every coloured or blinking
     // blank carries a glyph: key such cases by the character clause
-    if matches!(p.clause, "blink" | "bg") {
-        let mut c = n.clone();
-        for row in c.grid.iter_mut() {
-            for cell in row.iter_mut() {
-                if is_blank(cell.0 as u32) && (cell.2 != Col::D(0) || cell.3 & F_BLINK != 0) {
-                    cell.0 = b'A';
-                }
-            }
-        }
-        if let Outcome::Differs(v, _) = roundtrip(&c, None) {
-            if let Some(m) = v.iter().find(|m| m.clause == "char") {
-                n = c;
-                p = Probe { clause: "char", x: m.x, y: m.y };
-                last_msg = m.msg.clone();
-            }
-        }
-    }
-
-    if positional {
-        // rows: the smallest window around the failing row that still fails
-        let h = n.grid.len();
-        if h > 1 {
-            let y = p.y.min(h - 1);
-            let lo = y.saturating_sub(1);
-            let hi = (y + 1).min(h - 1);
-            let windows = [(y, y), (y, hi), (lo, y), (lo, hi), (0, hi), (lo, h - 1)];
-            for (a, b) in windows {
-                if b - a + 1 >= n.grid.len() {
+    if matches!(a.p.clause, "blink" | "bg") {
+        for skip_failing_row in [false, true] {
+            let mut c = a.n.clone();
+            for (y, row) in c.grid.iter_mut().enumerate() {
+                if skip_failing_row && y == a.p.y {
                     continue;
                 }
-                let mut c = n.clone();
-                c.grid = n.grid[a..=b].to_vec();
-                if keep_if_fails!(c, Probe { y: p.y - a, ..p }) {
+                for cell in row.iter_mut() {
+                    if is_blank(cell.0 as u32) && (cell.2 != Col::D(0) || cell.3 & F_BLINK != 0) {
+                        cell.0 = b'A';
+                    }
+                }
+            }
+            if let Outcome::Differs(v, _) = roundtrip(&c, None) {
+                if let Some(m) = v.iter().find(|m| m.clause == "char") {
+                    a.n = c;
+                    a.p = Probe { clause: "char", x: m.x, y: m.y };
+                    a.msg = m.msg.clone();
                     break;
                 }
             }
         }
-        // neutralise runs: 'A' on default colours, else default blanks
-        for y in 0..n.grid.len() {
-            let mut x = 0;
-            while x < n.w {
-                let cell = n.grid[y][x];
-                let mut e = x + 1;
-                while e < n.w && n.grid[y][e] == cell {
-                    e += 1;
-                }
-                for fill in [FILL_A, BLANK] {
-                    if cell == fill {
-                        continue;
-                    }
-                    let mut c = n.clone();
-                    for k in x..e {
-                        c.grid[y][k] = fill;
-                    }
-                    if has_bom(&n) && !has_bom(&c) {
-                        continue;
-                    }
-                    if keep_if_fails!(c, p) {
-                        break;
-                    }
-                }
-                x = e;
-            }
-        }
-        // width 80: keep the right margin (drop / pad on the left), else keep the left margin
-        if n.w != 80 {
-            let w = n.w;
-            let mut done = false;
-            let shift_ok = if w > 80 { p.x >= w - 80 } else { true };
-            if shift_ok {
-                let mut c = n.clone();
-                c.w = 80;
-                for row in c.grid.iter_mut() {
-                    if w > 80 {
-                        row.drain(0..w - 80);
-                    } else {
-                        let mut pad = vec![FILL_A; 80 - w];
-                        pad.extend(row.iter().copied());
-                        *row = pad;
-                    }
-                }
-                let nx = if w > 80 { p.x - (w - 80) } else { p.x + (80 - w) };
-                done = keep_if_fails!(c, Probe { x: nx, ..p });
-            }
-            if !done && p.x < 80 {
-                let mut c = n.clone();
-                c.w = 80;
-                for row in c.grid.iter_mut() {
-                    row.resize(80, FILL_A);
-                }
-                done = keep_if_fails!(c, p);
-            }
-            if !done {
-                feats.push(if w < 80 { "narrow".into() } else { "wide".into() });
-            }
-        }
-    } else if n.w != 80 {
-        feats.push(if n.w < 80 { "narrow".into() } else { "wide".into() });
-    }
-    if n.grid.len() > 1 {
-        feats.push("multirow".into());
     }
 
-    // file starts with the bytes of a UTF-8 byte order mark
-    let mut protect_bom = false;
-    if has_bom(&n) {
-        let mut c = n.clone();
-        c.grid[0][0].0 = b'A';
-        if !keep_if_fails!(c, p) {
-            feats.push("utf8_bom_prefix".into());
-            protect_bom = true;
+    let mut steps: Vec<Step> = vec![Step::Window, Step::Join, Step::Runs, Step::Width, Step::Bom, Step::Unmargin, Step::Trailing];
+    steps.extend((0..FEATURES.len()).map(Step::Feature));
+    steps.extend((0..11).map(Step::Opt));
+
+    // first pass: every step; further passes: only the steps that were blocked (their removal made the case pass) are
+    // tried again on the further reduced case, until none of them can be dropped
+    let mut needed: Vec<Step> = Vec::new();
+    for s in &steps {
+        let (_, blocked) = a.apply(*s);
+        if blocked {
+            needed.push(*s);
         }
     }
-    // trailing blanks: give the last cell of every row a non-blank glyph (same colours)
-    {
-        let mut c = n.clone();
+    for _pass in 0..4 {
         let mut changed = false;
-        for row in c.grid.iter_mut() {
-            if let Some(l) = row.last_mut() {
-                if is_blank(l.0 as u32) {
-                    l.0 = b'A';
-                    changed = true;
-                }
+        let mut still_needed = Vec::new();
+        for s in &needed {
+            let (simplified, blocked) = a.apply(*s);
+            changed |= simplified;
+            if blocked {
+                still_needed.push(*s);
             }
         }
-        if changed && !keep_if_fails!(c, p) {
-            feats.push("trailing_blank".into());
+        needed = still_needed;
+        if !changed {
+            break;
         }
     }
-    for (name, f) in FEATURES.iter() {
-        let mut c = n.clone();
-        let mut changed = false;
-        let o = c.opts;
-        for (y, row) in c.grid.iter_mut().enumerate() {
-            for (x, cell) in row.iter_mut().enumerate() {
-                if protect_bom && y == 0 && x < 3 {
-                    continue;
-                }
-                let m = f(*cell, &o);
-                if m != *cell {
-                    *cell = m;
-                    changed = true;
-                }
-            }
-        }
-        if changed {
-            relegalize(&mut c);
-            if !keep_if_fails!(c, p) {
-                feats.push((*name).into());
-            }
-        }
-    }
-    // options towards the base vector
+
+    // features in order of specificity (flags, colours, glyph classes, then structure), options alphabetically
+    let mut feats: Vec<String> = Vec::new();
     let mut opts: Vec<String> = Vec::new();
-    for i in 0..11 {
-        let v = n.opts.get(i);
-        let b = Opts::BASE.get(i);
-        if v == b {
-            continue;
+    for s in &needed {
+        if let Step::Feature(i) = s {
+            feats.push(FEATURES[*i].0.into());
         }
-        if i == 1 && n.w != 80 {
-            opts.push(Opts::name(i, v)); // a width other than 80 exists only with SAUCE
-            continue;
+    }
+    for s in &needed {
+        match s {
+            Step::Bom => feats.push("utf8_bom_prefix".into()),
+            Step::Trailing => feats.push("trailing_blank".into()),
+            Step::Opt(i) => opts.push(Opts::name(*i, a.n.opts.get(*i))),
+            _ => {}
         }
-        let mut c = n.clone();
-        c.opts.set(i, b);
-        if i == 9 && c.grid.iter().flatten().any(|cell| !encodable(cell.0, b)) {
-            opts.push(Opts::name(i, v)); // the needed characters exist only under this handling
-            continue;
-        }
-        relegalize(&mut c);
-        // (a changed grid means the simpler mode cannot hold these cells)
-        if c.grid != n.grid || !keep_if_fails!(c, p) {
-            opts.push(Opts::name(i, v));
-        }
+    }
+    if a.n.grid.len() > 1 {
+        feats.push("multirow".into());
+    }
+    if needed.iter().any(|s| matches!(s, Step::Width)) {
+        feats.push(if a.n.w < 80 { "narrow".into() } else { "wide".into() });
     }
     // a failure in Unlimited mode: does the same grid pass in Blink mode?
-    if n.opts.ice == 0 {
-        let mut c = n.clone();
+    if a.n.opts.ice == 0 {
+        let mut c = a.n.clone();
         c.opts.ice = 1;
         relegalize(&mut c);
-        if c.grid == n.grid && still(&c, &p).is_none() {
+        if c.grid == a.n.grid && still(&c, &a.p).is_none() {
             opts.push(Opts::name(10, 0));
         }
     }
     opts.sort();
-    feats.sort();
     let key = format!(
-        "{}|opts={}|in={}",
-        p.clause,
-        if opts.is_empty() { "-".to_string() } else { opts.join("+") },
-        if feats.is_empty() { "-".to_string() } else { feats.join("+") }
+        "{}|in={}|opts={}",
+        a.p.clause,
+        if feats.is_empty() { "-".to_string() } else { feats.join("+") },
+        if opts.is_empty() { "-".to_string() } else { opts.join("+") }
     );
-    let reduced = format!("reduced witness: opts={} w={} rows={} -> {}", n.opts.tag(), n.w, compact_rows(&n.grid), last_msg);
+    let reduced = format!("reduced witness: opts={} w={} rows={} -> {}", a.n.opts.tag(), a.n.w, compact_rows(&a.n.grid), a.msg);
     (key, reduced)
 }
 
@@ -1046,6 +1229,13 @@ fn minimize(c: &Case) -> Vec<Case> {
     if c.opts.sauce && c.w != 80 {
         out.push(Case { w: 80, ..c.clone() });
     }
+    for i in 0..11 {
+        if c.opts.get(i) != Opts::BASE.get(i) {
+            let mut d = c.clone();
+            d.opts.set(i, Opts::BASE.get(i));
+            out.push(d);
+        }
+    }
     if c.mask != 0xFF {
         out.push(Case { mask: 0xFF, ..c.clone() }); // makes the stored flags self-explaining
     }
@@ -1066,7 +1256,7 @@ fn main() {
          Class tag = 2 hex digits of the booleans (bit0 compress, 1 cursor_forward, 2 repeat, 3 preserve_line_length, 4 longer_terminal, 5 extended_colors, 6 save_sauce, 7 lossles_output) followed by the \
          digits prep(0 None,1 ClearScreen,2 Home) ctrl(0 Ignore,1 IcyTerm,2 FilterOut) ice(0 Unlimited,1 Blink,2 Ice). \
          Non-trivial: >= 2 attribute changes between consecutive cells AND >= 1 compressible run (>= 5 equal cells in a row or >= 2 trailing black blanks) AND option vector != (SaveOptions::default(), Unlimited); \
-         distinct by hash of the case. Failure key = oracle clause | options that must differ from the all-off vector | input features whose removal makes the clause pass (greedy, fixed order).",
+         distinct by hash of the case. Failure key = oracle clause | input features whose removal makes the reduced case pass | options that must differ from the all-off vector (greedy reduction to a fixpoint, fixed order).",
     );
     eng.assume("what a cell shows is computed as Buffer::render_to_rgba does: palette RGB of the foreground (entry+8 when bold and entry<8) and of the background; NUL, space and 0xFF are one blank class; foreground of blanks is not compared");
     eng.assume("rows or cells missing from the loaded buffer count as blank on black, not blinking; rows below the saved rectangle must be blank on black");
